@@ -6,11 +6,18 @@
 
   Python slices never fail (`slice`), indexing and `struct.unpack` do (`pyError`).
 
-  Two statements exist in two variants (DESIGN §2.4):
+  Four statements exist in two variants (DESIGN §2.4):
     * `oemWholeRest`  – as shipped `oem_data = data[34:-1]`; intended `data[34:34+oem_data_length]`
     * `descEscapes`   – as shipped the description is decoded with the `raw_unicode_escape`
                         codec (interprets `\uXXXX`, fails on a malformed escape); intended:
                         one character per byte.
+    * `oemUnsetEmpty` – as shipped `oem_data` is assigned only `if self.oem_data_length:` – a header
+                        without OEM data has NO `oem_data` attribute; intended: assigned always
+                        (the empty byte string for length 0).
+    * `checked` (upload) – as shipped `wait_for_long_duration_command` returns nothing and
+                        `upload_binary` goes on with the next block whatever the status polls said;
+                        intended: a final completion code other than 00h, or 80h still reported
+                        when the time-out expires, raises HpmError.
 -/
 import PyIpmi.Base.Bytes
 import PyIpmi.Base.Outcome
@@ -25,10 +32,11 @@ open PyIpmi.Spec.HpmDevice (Dev Rsp Ev Reply)
 structure Variant where
   oemWholeRest : Bool
   descEscapes : Bool
+  oemUnsetEmpty : Bool
   deriving Repr, DecidableEq
 
-def Variant.asShipped : Variant := ⟨true, true⟩
-def Variant.intended : Variant := ⟨false, false⟩
+def Variant.asShipped : Variant := ⟨true, true, true⟩
+def Variant.intended : Variant := ⟨false, false, false⟩
 
 /-- Python `l[a:b]` for `0 ≤ a`, `0 ≤ b` -/
 def slice (a b : Nat) (l : List Nat) : List Nat := (l.take b).drop a
@@ -101,9 +109,11 @@ def parseHeader (v : Variant) (data : List Nat) : Outcome HeaderView :=
           components := componentsOfByte cb,
           selftestTimeout := st, rollbackTimeout := rb, inaccessibilityTimeout := ina,
           earliest := ecr, firmwareRevision := fr, oemLength := oemLen,
-          oem := if oemLen = 0 then []                 -- attribute not set: reported as empty
+          oem := if oemLen = 0 then []                 -- `data[34:34]`, or the attribute is not set
                  else if v.oemWholeRest then data.dropLast.drop oemStart
                  else slice oemStart (oemStart + oemLen) data,
+          -- `if self.oem_data_length: self.oem_data = …`: no attribute for length 0
+          oemPresent := !(v.oemUnsetEmpty && oemLen == 0),
           checksum := chk, length := oemStart + oemLen + headerChkLen }
 
 /-! ### `bytes.decode('raw_unicode_escape')` (CPython `_PyUnicode_DecodeRawUnicodeEscapeStateful`) -/
@@ -215,42 +225,53 @@ structure St where
 
 /-- `wait_for_long_duration_command`: the `while time.time() < start_time + timeout` loop.
 Every iteration that does not return consumes one pending "in progress" answer of the device,
-hence `fuel = pending + 1`. -/
-def waitLoop (interval deadline lat : Nat) : Nat → St → St
-  | 0, s => s
+hence `fuel = pending + 1` (the plans never name 80h as a FINAL code).  Result: `some c` when a
+status answer carried the last completion code `c` ≠ 80h (the loop returns there), `none` when
+the time-out expired while the device still reported 80h. -/
+def waitLoop (interval deadline lat : Nat) : Nat → St → Option Nat × St
+  | 0, s => (none, s)
   | f + 1, s =>
     if s.now < deadline then
       match s.dev.getStatus with
       | (.status _ last, d) =>
         if last = ccInProgress then waitLoop interval deadline lat f ⟨d, s.now + lat + interval⟩
-        else ⟨d, s.now + lat⟩
-      | (_, d) => ⟨d, s.now + lat⟩
-    else s
+        else (some last, ⟨d, s.now + lat⟩)
+      | (_, d) => (none, ⟨d, s.now + lat⟩)
+    else (none, s)
 
-def waitLong (timeout interval lat : Nat) (s : St) : St :=
+def waitLong (timeout interval lat : Nat) (s : St) : Option Nat × St :=
   waitLoop interval (s.now + timeout) lat (s.dev.pending + 1) s
 
+/-- what `upload_binary` does with the outcome of the wait.  As shipped (`checked = false`)
+nothing: the next block follows.  Intended: only a final 00h lets the upload go on; any other
+final code, and a time-out with 80h still pending, raise HpmError. -/
+def afterWait (checked : Bool) (r : Option Nat) : Bool :=
+  !checked || r == some ccOk
+
 /-- body of `for chunk in chunks(binary, block_size)` in `upload_binary` -/
-def uploadLoop (timeout interval lat : Nat) : List (List Nat) → Nat → Int → St → Outcome Unit × St
+def uploadLoop (checked : Bool) (timeout interval lat : Nat) :
+    List (List Nat) → Nat → Int → St → Outcome Unit × St
   | [], _, _, s => (.ok (), s)
   | c :: cs, num, retry, s =>
     match s.dev.upload num c with
     | (.cc cc, d) =>
       if cc = 0 then
-        uploadLoop timeout interval lat cs ((num + blockIncr) &&& blockMask) retry ⟨d, s.now + lat⟩
+        uploadLoop checked timeout interval lat cs ((num + blockIncr) &&& blockMask) retry ⟨d, s.now + lat⟩
       else if cc = ccInProgress then
-        uploadLoop timeout interval lat cs ((num + blockIncr) &&& blockMask) retry
-          (waitLong timeout interval lat ⟨d, s.now + lat⟩)
+        if afterWait checked (waitLong timeout interval lat ⟨d, s.now + lat⟩).1 then
+          uploadLoop checked timeout interval lat cs ((num + blockIncr) &&& blockMask) retry
+            (waitLong timeout interval lat ⟨d, s.now + lat⟩).2
+        else (.hpmError, (waitLong timeout interval lat ⟨d, s.now + lat⟩).2)
       else (.hpmError, ⟨d, s.now + lat⟩)
     | (.silent, d) =>
       if retry - retryDec = retryFloor then (.timeoutError, ⟨d, s.now + lat⟩)
-      else uploadLoop timeout interval lat cs ((num + blockIncr) &&& blockMask) (retry - retryDec) ⟨d, s.now + lat⟩
+      else uploadLoop checked timeout interval lat cs ((num + blockIncr) &&& blockMask) (retry - retryDec) ⟨d, s.now + lat⟩
     | (.status _ _, d) => (.pyError "?", ⟨d, s.now + lat⟩)
 
 /-- `Hpm.upload_binary(binary, timeout, interval, retry)` with block size `bs` -/
-def uploadBinary (bs timeout interval lat : Nat) (retry : Int) (binary : List Nat) (dev : Dev) :
+def uploadBinary (checked : Bool) (bs timeout interval lat : Nat) (retry : Int) (binary : List Nat) (dev : Dev) :
     Outcome Unit × St :=
   if bs = 0 then (.pyError "ValueError", ⟨dev, 0⟩)   -- range() arg 3 must not be zero
-  else uploadLoop timeout interval lat (chunks bs binary) firstBlock retry ⟨dev, 0⟩
+  else uploadLoop checked timeout interval lat (chunks bs binary) firstBlock retry ⟨dev, 0⟩
 
 end PyIpmi.Hpm
